@@ -73,7 +73,38 @@ def check_renderer_families(S, ev, r1):
             r1.ok("%s::%s recurses only into its own family (%d recursive positions)" % (owner, entry, n_rec))
 
 
+def struct_emitter_total(P, r2_pending, r2_ok, rid="C10-D2-names-and-keys"):
+    """generate_struct_schema has no way out that emits nothing; shared by C10-D2 and C07-D6 (violations are appended to the given lists)"""
+    gss = [f_ for k_, f_ in P.fns.items() if re.sub(r"::<[^>]*>", "", k_).endswith("ZodBindingsGenerator::generate_struct_schema")]
+    for f_ in gss:
+        emit = {c.bb for c in f_.calls if (c.best or "").endswith(("::generate_enum_schema", "::generate_object_schema")) and c.bb in f_.reach_blocks}
+        if not emit:
+            r2_pending.append(V(rid, f_.id, "no-emitter-call", "generate_struct_schema calls neither emitter"))
+            continue
+        seen_ = {0}
+        work_ = [0]
+        leak = False
+        while work_:
+            b_ = work_.pop()
+            if b_ in emit:
+                continue
+            if f_.blocks[b_]["term"]["k"] == "return":
+                leak = True
+            for (_, t_) in f_.succ_edges(b_):
+                if t_ not in seen_:
+                    seen_.add(t_)
+                    work_.append(t_)
+        if leak:
+            r2_pending.append(V(rid, f_.id, "struct-without-schema", "generate_struct_schema can return without calling generate_enum_schema / generate_object_schema: some structs the plain mode declares get no schema (and no inferred type) in Zod mode"))
+        else:
+            r2_ok.append("generate_struct_schema: every path emits through one of the two schema emitters")
+    if not gss:
+        r2_pending.append(V(rid, "<anchor>", "missing:generate_struct_schema", "anchor not found"))
+
+
 def check(ctx):
+    r2_pending = []
+    r2_ok = []
     S = ctx.S
     rules = []
     ev = SVEval(S)
@@ -199,6 +230,26 @@ def check(ctx):
                 else:
                     r1.bad(V(r1.id, fid, "entry-preprocesses-structure", "%s does not pass the structure it received to render_type (%s): the schema then describes another type than the declaration"
                              % (fid.split("::")[-1], f.describe_origin(o)[:80]), c.file, c.line))
+    # same keys in both modes: the two field-context builders (plain: StructContext::from_struct_info, Zod: TypeCollector::create_field_contexts)
+    # turn *every* parsed field into a context: no filter/skip/take on the field iteration (what serde skips was removed by the parser, once, for both)
+    DROPPERS = {"filter", "filter_map", "skip", "skip_while", "take", "take_while", "step_by", "flat_map", "nth", "last", "find", "find_map"}
+    for suffix in ("StructContext::from_struct_info", "TypeCollector::create_field_contexts"):
+        fs_ = [f_ for k_, f_ in ctx.P.fns.items() if re.sub(r"::<[^>]*>", "", k_).endswith(suffix)]
+        if not fs_:
+            r2_pending.append(V("C10-D2-names-and-keys", "<anchor>", "missing:%s" % suffix, "field-context builder not found"))
+            continue
+        for f_ in fs_:
+            bad_ = [c for c in f_.calls if c.trait in ("std::iter::Iterator", "std::iter::DoubleEndedIterator") and c.name in DROPPERS and c.bb in f_.reach_blocks]
+            if bad_:
+                r2_pending.append(V("C10-D2-names-and-keys", f_.id, "field-iteration-dropped:%s" % ",".join(sorted(set(c.name for c in bad_))),
+                                    "%s does not build a context for every parsed field (.%s(..)): this mode's declaration loses keys the other mode keeps" % (suffix, bad_[0].name), bad_[0].file, bad_[0].line))
+            else:
+                r2_ok.append("%s: one context per parsed field" % suffix)
+    # every struct the plain mode declares gets a schema: generate_struct_schema has no way out that emits nothing
+    struct_emitter_total(ctx.P, r2_pending, r2_ok)
+    # the `?` of the plain declaration agrees with the schema's .optional(): both look at the type's last path segment (rule shared with C04-D4)
+    from c04 import check_optional_predicate
+    check_optional_predicate(S, "StructParser", r1)
     # enums
     ge = [f for f in S.fns if f.owner == "ZodBindingsGenerator" and f.name == "generate_enum_schema"]
     if not ge:
@@ -218,6 +269,10 @@ def check(ctx):
     r2 = Rule("C10-D2-names-and-keys", "D2",
               "struct/enum/Params names and key holes of the Zod templates use the same context expressions as the plain templates",
               "a schema keyed by another name than the interface validates a different object than the declaration describes")
+    for v_ in r2_pending:
+        r2.bad(v_)
+    for t_ in r2_ok:
+        r2.ok(t_)
     T = Templates(S)
     def key_holes(name):
         ps = T.paths(name) or []
